@@ -12,6 +12,10 @@ use world::*;
 
 pub struct EnfGroup {
     pub prop: &'static str,
+    /// false: default policy filter, compared with the Lean model line by line;
+    /// true: monitor-only run ("free"): one unrelated policy tag demoted to a warning by the policy filter and
+    /// store-write failures injected into single requests — the property monitors stay armed
+    pub free: bool,
 }
 
 fn u64_edge(rng: &mut Rng) -> u64 {
@@ -263,9 +267,16 @@ impl Group for EnfGroup {
         self.prop
     }
     fn model(&self) -> Option<&'static str> {
-        Some("enforcement")
+        if self.free { None } else { Some("enforcement") }
     }
     fn rule(&self) -> &'static str {
+        if self.free {
+            return "enforcement, monitor-only: the same real Node + channel world and request kinds, but the policy filter demotes ONE \
+                    tag that C01-C03 do not rest on to a warning (retry-same, fee-range, htlc bounds, routing-balanced, mutual-*, ...; \
+                    with retry-same demoted only the re-sign monitor is disarmed) and/or the store refuses every write during single \
+                    requests (`failw`): what is acknowledged counts, a refused request is followed by a restart; no model comparison, \
+                    all C01/C02/C03 monitors armed; non-trivial = at least one accepted state-changing request and one refusal";
+        }
         "enforcement: real Node + channel (stub, then setup_channel) behind KVVPersister<MemoryKVVStore>; requests \
          validate (phase 1/2; 10 contents: 0..5 HTLCs and a policy-violating one; signature lists: genuine, wrong commitment sig, first/middle/last HTLC sig wrong, empty, n-1, n+1, swapped), \
          revoke, activate, get point/secret/secret-or-none, sign holder (phase2/recovery/redundant), mutual close, sign \
@@ -276,7 +287,12 @@ impl Group for EnfGroup {
          at least one accepted state-changing request and at least one refusal"
     }
     fn budget(&self, tier: Tier) -> usize {
-        if tier == Tier::Quick { 220 } else { 4000 }
+        match (self.free, tier) {
+            (false, Tier::Quick) => 220,
+            (false, _) => 4000,
+            (true, Tier::Quick) => 160,
+            (true, _) => 3000,
+        }
     }
     /// handler-arm requests are the same model requests as their channel entry points
     fn model_line(&self, op: &str) -> Option<String> {
@@ -293,6 +309,33 @@ impl Group for EnfGroup {
     }
     fn corpus(&self) -> Vec<Vec<String>> {
         let f = |s: &str| -> Vec<String> { s.split('|').map(|x| x.trim().to_string()).collect() };
+        if self.free {
+            let seeded = |n: u64| hex::encode(lightning_signer::lightning::ln::chan_utils::build_commitment_secret(&[3u8; 32], INITIAL - n));
+            let mut v = vec![];
+            // an off-tree point and secret for a later counterparty commitment stay refused whichever unrelated tag
+            // the filter demotes (chain check = policy-commitment-previous-revoked)
+            for tag in ["policy-commitment-retry-same", "policy-commitment-fee-range", "policy-routing-balanced"] {
+                v.push(f(&format!(
+                    "filter {tag}|setup|signcp 0 1000 0 1 2|signcp 1 1005 0 1 2|revokecp 0 {s0} 1000|signcp 2 1008 0 1 2|revokecp 1 {a1} 1005|hrevokecp 1 {a1} 1005|signcp 3 1012 0 1 2",
+                    tag = tag, s0 = seeded(0), a1 = hex::encode(alt_secret(1))
+                )));
+                // holder side under the same filters: no secret without a validated successor, no revoke after signing
+                v.push(f(&format!("filter {}|setup|validate 0 0 1 1 2|activate|validate 1 9 1 0 2|revoke 1 1|getsecret 0|validate 1 1 0 1 2 0|revoke 1 1|validate 1 1 1 1 2|signholder 0|revoke 1 1|hrevoke 6 0 1|getsecret 0", tag)));
+            }
+            // the store refuses the writes of one request: whatever is acknowledged counts, then restart from the store
+            v.push(f("setup|signcp 0 1000 0 1 2|failw signcp 1 1004 0 1 2|restart|signcp 1 1005 1 1 2|signcp 1 1004 0 1 2"));
+            // composite store: the main or the backup side refuses the writes of one request
+            v.push(f("store backup|setup|validate 0 0 1 1 2|activate|validate 1 1 1 1 2|failw signholder 0|restart|revoke 1 1|getsecret 0"));
+            v.push(f("store backup|setup|validate 0 0 1 1 2|activate|validate 1 1 1 1 2|failb hsignholder 6 0|restart|hrevoke 6 0 1|getsecret 0"));
+            v.push(f("store backup|setup|signcp 0 1000 0 1 2|failw signcp 1 1004 0 1 2|restart|signcp 1 1005 1 1 2|failb signcp 2 1008 0 1 2|restart|signcp 2 1009 0 1 2"));
+            v.push(f("store backup|setup|validate 0 0 1 1 2|activate|validate 1 1 1 1 2|revoke 1 1|restart|validate 2 2 1 1 1|failw revoke 2 1|restart|signholder 1"));
+            v.push(f("setup|signcp 0 1000 0 1 2|failw hsigncp 1 1004 24 1 2|restart|hsigncp 1 1004 28 1 2"));
+            v.push(f("setup|validate 0 0 1 1 2|activate|validate 1 1 1 1 2|failw signholder 0|restart|revoke 1 1|getsecret 0"));
+            v.push(f("setup|validate 0 0 1 1 2|activate|validate 1 1 1 1 2|failw hsigncommit 6 0|restart|hrevoke 6 0 1"));
+            v.push(f("setup|validate 0 0 1 1 2|activate|validate 1 1 1 1 2|failw revoke 1 1|restart|signholder 0|failw signrecovery|restart|revoke 1 1"));
+            v.push(f(&format!("setup|signcp 0 1000 0 1 2|signcp 1 1004 0 1 2|failw revokecp 0 {s0} 1000|restart|signcp 2 1008 0 1 2|revokecp 0 {s0} 1000|signcp 2 1008 0 1 2", s0 = seeded(0))));
+            return v;
+        }
         let mut v = vec![
             // happy path with every disclosure route, then the u64 edge requests
             f("getsecret 0|getsecretnone 0|hgetpoint 4 1|setup|validate 0 0 1 1 2|activate|validate 1 1 1 1 1|getsecret 0|revoke 1|getsecret 0|getsecretnone 0|getsecret 1|validate 2 2 1 1 2|hrevoke 6 1|hgetpoint 4 3|hgetpoint 4 4|restart|getsecret 1|getsecret 2|revoke 18446744073709551615|getsecret 18446744073709551615|getsecret 18446744073709551614|getsecretnone 18446744073709551615|getsecretnone 18446744073709551614|hrevoke 6 18446744073709551614|revoke 18446744073709551614|hgetpoint 4 18446744073709551615|getsecret 1|getsecret 2|hrevoke 6 18446744073709551615|restart|getsecret 1"),
@@ -359,8 +402,16 @@ impl Group for EnfGroup {
         v
     }
     fn gen_case(&self, rng: &mut Rng, tier: Tier) -> Vec<String> {
-        let mut w = World::new();
+        let demoted: Option<String> = if self.free && rng.chance(5, 6) { Some(rng.pick(&DEMOTABLE_TAGS).to_string()) } else { None };
+        let backup = self.free && rng.chance(1, 3);
+        let mut w = World::new_cfg2(demoted.clone(), backup);
         let mut ops = Vec::new();
+        if let Some(t) = &demoted {
+            ops.push(format!("filter {}", t));
+        }
+        if backup {
+            ops.push("store backup".into());
+        }
         let len = rng.range(4, if tier == Tier::Quick { 14 } else { 32 }) as usize;
         // a few requests against the stub in some cases, then setup
         if rng.chance(1, 4) {
@@ -425,7 +476,14 @@ impl Group for EnfGroup {
                 }
             } else {
                 let op = self.gen_op(rng, &w);
-                handlerize(rng, op)
+                let op = handlerize(rng, op);
+                // free mode: the store refuses every write during one state-changing request
+                let k = op.split(' ').next().unwrap_or("");
+                if self.free && rng.chance(1, 8) && matches!(k, "validate" | "hvalidate" | "hvalidate1" | "revoke" | "hrevoke" | "activate" | "signholder" | "hsignholder" | "hsigncommit" | "signrecovery" | "signredundant" | "mutualclose" | "hmutualclose" | "signcp" | "hsigncp" | "revokecp" | "hrevokecp") {
+                    format!("{} {}", if backup && rng.chance(1, 3) { "failb" } else { "failw" }, op)
+                } else {
+                    op
+                }
             };
             let before = w.digest();
             let line = w.apply(&op);
@@ -433,7 +491,8 @@ impl Group for EnfGroup {
             ops.push(op);
             // crash point: a restart directly after a request that changed the state (a dropped or misplaced
             // persist shows exactly here)
-            if changed && !w.dead && rng.chance(1, 6) {
+            let acked_failw = ops.last().map(|o| o.starts_with("failw ") || o.starts_with("failb ")).unwrap_or(false) && (line.starts_with("failw ok") || line.starts_with("failb ok"));
+            if (changed && !w.dead && rng.chance(1, 6)) || (acked_failw && rng.chance(2, 3)) {
                 w.apply("restart");
                 ops.push("restart".into());
             }
@@ -442,7 +501,9 @@ impl Group for EnfGroup {
     }
     fn exec_case(&self, ops: &[String]) -> CaseOut {
         let mut co = CaseOut::default();
-        let mut w = World::new();
+        let demoted = ops.first().and_then(|o| o.strip_prefix("filter ")).map(|t| t.to_string());
+        let backup = ops.iter().take(2).any(|o| o == "store backup");
+        let mut w = World::new_cfg2(demoted, backup);
         let (mut accepted, mut refused) = (false, false);
         for op in ops {
             let before = w.digest();
@@ -486,5 +547,5 @@ impl Group for EnfGroup {
 }
 
 pub fn groups() -> Vec<Box<dyn Group>> {
-    vec![Box::new(EnfGroup { prop: "C01" })]
+    vec![Box::new(EnfGroup { prop: "C01", free: false }), Box::new(EnfGroup { prop: "C01", free: true })]
 }
